@@ -18,7 +18,7 @@ TARGETS = {
     "etrade_text":    dict(runs=30_000,  max_len=8192, dict=None),
     "fmv_text":       dict(runs=80_000,  max_len=4096, dict=None),
     "ledger_intents": dict(runs=20_000,  max_len=1395, dict=None),
-    "csv_cells":      dict(runs=100_000, max_len=2 + 16 * 40, dict=None),
+    "csv_cells":      dict(runs=30_000, max_len=2 + 16 * 40, dict=None),
 }
 PLAN = {
     "C01": ["ledger_intents"], "C03": ["ledger_intents"], "C04": ["ledger_intents"],
